@@ -11,7 +11,7 @@
 //!  * `f6`     — the forced two-thread schedule of finding F6 on the real set (no hooks: the gate sits in
 //!    `S::default()` of the `BuildHasher` parameter, which the upgrade calls inside its critical section).
 use std::{
-    collections::{BTreeMap, BTreeSet, HashMap},
+    collections::{BTreeMap, BTreeSet, HashMap, HashSet},
     hash::BuildHasher,
     sync::{
         Arc, Mutex,
@@ -489,6 +489,15 @@ fn write_trace(ctx: &mut Ctx, out: &mut Out, evs: &[(u64, &'static str, QueryID,
     let mut genmap: HashMap<u64, u64> = HashMap::new();
     let mut next_gen = 0u64;
     let mut lines = 0u64;
+    // `cl.done` is emitted AFTER `remove_sync` returned (the removal itself cannot carry a hook), `cl.done_pre`
+    // right before the call: the removal lies between the two.  `cl.vacant` is emitted inside its critical
+    // section, so a `vacant k` seen between `done_pre(k,g)` and `done(k,g)` proves that g's removal already
+    // happened: the `done` line is then written right before that `vacant` (its latest possible position)
+    // and the late hook event is dropped.  A `vacant` while the entry's `done_pre` has NOT been seen is left
+    // as it is (the model rejects it: two owners).
+    let mut cur: HashMap<u32, u64> = HashMap::new();          // key -> generation in the table (by the lines written)
+    let mut pre_seen: HashSet<u64> = HashSet::new();          // generations whose done_pre was seen, done not yet written
+    let mut early: HashSet<u64> = HashSet::new();             // generations whose done line was written early
     out.line("ct begin", "ok");
     let mut epoch_written = false;
     for (s, label, id, n) in evs {
@@ -500,10 +509,23 @@ fn write_trace(ctx: &mut Ctx, out: &mut Out, evs: &[(u64, &'static str, QueryID,
             "fp.miss" => format!("ct miss {k}"),
             "fp.hit" => format!("ct hit {k}"),
             "cl.none" => format!("ct none {k}"),
-            "cl.vacant" => { next_gen += 1; genmap.insert(*n, next_gen); format!("ct vacant {k} {next_gen}") }
+            "cl.vacant" => {
+                if let Some(g) = cur.get(&k).copied() { if pre_seen.remove(&g) {
+                    early.insert(g); ctx.inc("ct_done_lines_placed_before_vacant", 1);
+                    out.line(&format!("ct done {k} {g}"), "ok"); lines += 1;
+                } }
+                next_gen += 1; genmap.insert(*n, next_gen); cur.insert(k, next_gen); format!("ct vacant {k} {next_gen}")
+            }
             "cl.reg" => format!("ct reg {k} {}", genmap.get(n).copied().unwrap_or(0)),
             "cl.publish" => format!("ct publish {k}"),
-            "cl.done" => format!("ct done {k} {}", genmap.get(n).copied().unwrap_or(0)),
+            "cl.done_pre" => { pre_seen.insert(genmap.get(n).copied().unwrap_or(0)); continue; }
+            "cl.done" => {
+                let g = genmap.get(n).copied().unwrap_or(0);
+                if early.remove(&g) { continue; }
+                pre_seen.remove(&g);
+                if cur.get(&k) == Some(&g) { cur.remove(&k); }
+                format!("ct done {k} {g}")
+            }
             "cl.woken" => format!("ct woken {k}"),
             _ => continue,
         };
